@@ -20,11 +20,14 @@ slice indices of pending headers right: the funnel, clamp and counter rules of C
 R3.3) are re-evaluated here.
 NOT decided: the numeric lag bound (one arena chunk + one 64008-byte chunk) and that drained + finished equals
 the complete output (value-level; the prefix-stability part reduces to C04's rules).
+(R9.5 = R5.3, R5.4, R17.6) output slices that borrow from a read buffer are backed until drained: the anchor
+is queued after the slices that reference it on every path, both halves of AnchoredSlice::split_at keep a
+clone of the anchor, and encode_read / decode_read feed their buffer through the anchored entry points.
 """
 
 ASSUMPTIONS = ['C04 (pending placeholders are the only blockers)', 'typestate witnesses W1/W8 (thorough tier)']
 
-FLOORS = {'R9.1': 10, 'R9.2': 6, 'R9.3': 4, 'R9.4': 30}
+FLOORS = {'R9.1': 10, 'R9.2': 6, 'R9.3': 4, 'R9.4': 30, 'R9.5': 21}
 
 ES = 'hcobs::encoder::EncoderState'
 
@@ -122,4 +125,11 @@ def r9_4(cx):
         cx.records.append(rec)
 
 
-RULES = [('R9.1', r9_1), ('R9.2', r9_2), ('R9.3', r9_3), ('R9.4', r9_4)]
+def r9_5(cx):
+    """bytes fed from read buffers stay alive until drained: anchors are queued after the slices they back, both halves of a split keep the anchor, the read wrappers go through the anchored entry points (R5.3, R5.4, R17.6)"""
+    from . import c05, c17
+    from .util import compose
+    compose(cx, [('R5.3', c05.r5_3), ('R5.4', c05.r5_4), ('R17.6', c17.r17_6)])
+
+
+RULES = [('R9.1', r9_1), ('R9.2', r9_2), ('R9.3', r9_3), ('R9.4', r9_4), ('R9.5', r9_5)]
